@@ -37,6 +37,10 @@ def _nap(x):
     time.sleep(NAP * (int(abs(float(np.sum(x))) * 4) % 6))
 
 
+def st_size(x):
+    return float(len(x))
+
+
 def st_sum(x):
     return float(np.sum(x))
 
@@ -206,6 +210,13 @@ def oracle(case):
         return "the data array was modified"
     est = float.fromhex(next(iter(seen.values())))
     raw = [float(t) for t in obj._compute_jackknife_samples(data, fn_plain, 1, *args, **kwargs)]
+    # d is the number of points the subsamples actually lack (read off with a statistic that returns the subsample size)
+    sizes = {int(t) for t in obj._compute_jackknife_samples(data, st_size, 1)}
+    if len(sizes) != 1:
+        return f"the subsamples do not all have the same size: {sorted(sizes)} (n={n})"
+    d_obs = n - sizes.pop()
+    if d_obs != d:
+        return f"delete fraction {case['f']!r} of n={n} points: int(f*n) = {d} points are to be deleted, the subsamples lack {d_obs}"
     if not math.isfinite(est) or not all(math.isfinite(t) for t in raw):
         return f"non-finite result on finite data: estimate {est!r}, jackknife samples {raw[:6]} (n={n}, d={d}, N={N})"
     theta = [Fraction(t) for t in raw]
@@ -232,6 +243,7 @@ def oracle(case):
 
 # ----------------------------------------------------------------------------- generators
 DYADIC_F = [0.5, 0.25, 0.125, 0.75, 0.375, 0.0625, 0.625, 0.875, 0.1875, 0.03125]
+DECIMAL_FN = [(0.58, 50), (0.29, 100), (0.57, 100), (0.58, 100)]
 
 
 def gen_case(rng, small=False, force_d1=False, thorough=False):
@@ -244,7 +256,13 @@ def gen_case(rng, small=False, force_d1=False, thorough=False):
     else:
         data = [rng.randint(-9, 9) * rng.choice([1, 1, 0.25]) for _ in range(n)]
     fs = [f for f in DYADIC_F if int(f * n) >= 1]
-    if force_d1 or rng.random() < 0.3:
+    if not force_d1 and rng.random() < 0.08:
+        # a decimal fraction whose product with n lies just below an integer (0.29 * 100 = 28.999999999999996): int() and round()
+        # differ; only pairs on which the float product and the exact product of the double have the same integer part
+        f0, n = rng.choice(DECIMAL_FN)
+        data = (data * (n // len(data) + 1))[:n]
+        fs = [f0]
+    elif force_d1 or rng.random() < 0.3:
         fs1 = [f for f in DYADIC_F if int(f * n) == 1]
         fs = fs1 or fs
     f = rng.choice(fs) if fs else 0.5
